@@ -21,7 +21,7 @@
    plain logarithm while its nll_grad_batch uses clip_log; simple_cfit reads the data-side
    efficiency from the key "err_value" (so an "eff_value" column of the data is ignored there). *)
 From Coq Require Import Reals List.
-From TFV Require Import Base.RSum.
+From TFV Require Import Base.RBase Base.RSum.
 Import ListNotations.
 Open Scope R_scope.
 
@@ -54,6 +54,19 @@ Definition clip_log (x : R) : R :=
   if Rlt_dec eps_clip x then ln x
   else ln eps_clip + (x - eps_clip) / eps_clip
        - ((x - eps_clip) / eps_clip) * ((x - eps_clip) / eps_clip) / 2.
+
+(* the same function written without a case distinction (so that Coq-Interval can evaluate it in the
+   correspondence goals): ln(max x eps) + P(min x eps - eps), P(d) = d/eps - (d/eps)^2/2.
+   Equality with [clip_log] for every x: NLL_proofs.clip_log_abs_eq. *)
+Definition rmin (a b : R) : R := (a + b - Rabs (a - b)) / 2.
+
+Definition clip_log_abs (x : R) : R :=
+  ln (rmax x eps_clip) + (rmin x eps_clip - eps_clip) / eps_clip
+  - ((rmin x eps_clip - eps_clip) / eps_clip) * ((rmin x eps_clip - eps_clip) / eps_clip) / 2.
+
+(* total shortfall below 2c (branch-free): [shortfall c l <= c/2] certifies in ONE Coq-Interval goal
+   that every element of l is above c (NLL_proofs.shortfall_gt) *)
+Definition shortfall (c : R) (l : list R) : R := rsum (map (fun x => rmax 0 (2 * c - x)) l).
 
 (* int_f of BaseModel: log when not extended, identity when extended *)
 Definition int_f (ext : bool) (x : R) : R := if ext then x else ln x.
@@ -175,6 +188,15 @@ Definition fcn_total (nll : R) (cs : list (R * R * R)) : R := nll + gauss_term c
 Definition combine (nlls : list R) (cs : list (R * R * R)) : R := rsum nlls + gauss_term cs.
 
 (* ---- list closeness used by the correspondence cases ---- *)
+(* squared distance: one Coq-Interval goal [sqdist a b <= tol^2] certifies [close_list tol a b]
+   (NLL_proofs.sqdist_close) *)
+Fixpoint sqdist (a b : list R) : R :=
+  match a, b with
+  | x :: a', y :: b' => (x - y) * (x - y) + sqdist a' b'
+  | [], [] => 0
+  | _, _ => 1
+  end.
+
 Fixpoint close_list (tol : R) (a b : list R) : Prop :=
   match a, b with
   | x :: a', y :: b' => Rabs (x - y) <= tol /\ close_list tol a' b'
